@@ -160,84 +160,48 @@ def r3(ctx):
                   f"the model is trained on `{U(a)}` instead of the observed subset of the loaded screen")
 
 
+def ingestion_feed(ctx, f):
+    from engine import rowstream as RS
+    env = single_defs(f.node)
+    try:
+        return RS.sink_feed(f.node, env, "_update")
+    except RS.Undecided as e:
+        raise AnalysisError(f"{f.site()}: {e} - the rows fed to the sampler cannot be traced to the screen's columns")
+
+
 def r4(ctx):
-    """ingestion alignment in the two MCMC models"""
-    for q, sel_expected in (("models.sparse_combo.SparseDrugCombo._add_observations", None),
-                            ("models.sparse_combo_interaction.SparseDrugComboInteraction._add_observations", "combo")):
+    """ingestion alignment in the two MCMC models: whatever enumerates the rows (zip of columns, index loop, generator
+    pipeline), the four values handed to _update come from the same row of observations / sample_ids / treatment_ids[:, 0] /
+    treatment_ids[:, 1], and only rows whose observation_mask entry is set are ingested"""
+    for q in ("models.sparse_combo.SparseDrugCombo._add_observations", "models.sparse_combo_interaction.SparseDrugComboInteraction._add_observations"):
         f = ctx.fn(q)
         data = [p for p in f.params if p != "self"][0]
-        env = single_defs(f.node)
-        loops = [n for n in walk_own(f.node) if isinstance(n, ast.For) and isinstance(n.iter, ast.Call) and call_name(n.iter) == "zip"]
-        ctx.need(len(loops) == 1, f"{f.site()}: zip ingestion loop not found")
-        loop = loops[0]
-        ups = [c for c in calls(loop) if attr_tail(c) == "_update"]
-        ctx.need(len(ups) == 1, f"{f.site()}: expected exactly one _update call in the ingestion loop")
-        up = ups[0]
-        tnames = [U(e) for e in loop.target.elts]
-        srcs = {}
-        for tn, it in zip(tnames, loop.iter.args):
-            srcs[tn] = inline(it, env)
-        kw = kwargs(up)
+        feed, pos, filters, loop, call = ingestion_feed(ctx, f)
         problems = []
-        sels = set()
-
-        def source_of(e):
-            """(attr, selector, column) of a per-row value expression relative to `data`"""
-            col = None
-            if isinstance(e, ast.Subscript) and isinstance(e.value, ast.Name) and e.value.id in srcs:
-                base = srcs[e.value.id]
-                if isinstance(e.slice, ast.Constant):
-                    col = e.slice.value
-                e = base
-            elif isinstance(e, ast.Name) and e.id in srcs:
-                e = srcs[e.id]
-            else:
-                return None
-            # strip transform wrappers around observations
-            inner = e
-            while isinstance(inner, ast.Call) and inner.args:
-                inner = inner.args[0]
-                if isinstance(inner, ast.Call) and isinstance(inner.func, ast.Attribute) and inner.func.attr == "astype":
-                    inner = inner.func.value
-            if isinstance(inner, ast.Call) and isinstance(inner.func, ast.Attribute) and inner.func.attr == "astype":
-                inner = inner.func.value
-            p = common.prov(inner, env)
-            if p[0] == "whole" and p[1] == data:
-                return (p[2], None, col)
-            if p[0] == "sel" and p[1] == data:
-                s = p[3]
-                # `data.treatment_ids[combo_mask, 0]` -> selector combo_mask, column 0
-                try:
-                    sl = ast.parse(s, mode="eval").body
-                except SyntaxError:
-                    sl = None
-                if isinstance(sl, ast.Tuple) and len(sl.elts) == 2 and isinstance(sl.elts[1], ast.Constant):
-                    return (p[2], U(sl.elts[0]), sl.elts[1].value)
-                return (p[2], s, col)
-            return None
         want = {"y": ("observations", None), "cl": ("sample_ids", None), "dd1": ("treatment_ids", 0), "dd2": ("treatment_ids", 1)}
+        sels = set()
         for k, (attr, col) in want.items():
-            if k not in kw:
+            if k not in feed:
                 problems.append(f"_update is not given `{k}` by keyword")
                 continue
-            s = source_of(kw[k])
-            if s is None:
-                problems.append(f"`{k}`={U(kw[k])} does not come from a per-row attribute of `{data}`")
-                continue
-            if s[0] != attr or (col is not None and s[2] != col):
-                problems.append(f"`{k}` is fed from {s[0]}{'' if s[2] is None else '[:, %s]' % s[2]} (expected {attr}{'' if col is None else '[:, %s]' % col})")
-            sels.add(s[1])
+            fl = feed[k]
+            if fl.root != data:
+                problems.append(f"`{k}` comes from `{fl.root}`, not from `{data}`")
+            if fl.attr != attr or fl.col != col:
+                problems.append(f"`{k}` is fed from {fl.attr}{'' if fl.col is None else '[:, %s]' % fl.col} (expected {attr}{'' if col is None else '[:, %s]' % col})")
+            sels.add(fl.selector)
+        mask_filters = [(fl, pol) for fl, pol in filters if fl.attr == "observation_mask" and fl.root == data]
+        for fl, pol in filters:
+            sels.add(fl.selector)
         if len(sels) > 1:
-            problems.append(f"zipped values use different row selectors {sorted(map(str, sels))}")
-        # exactly once per iteration (not nested in a further loop)
-        par = enclosing_map(loop)
-        n = up
-        while n in par and par[n] is not loop:
-            n = par[n]
-            if isinstance(n, (ast.For, ast.While)):
-                problems.append("_update is nested in an inner loop (a row could be ingested more than once)")
+            problems.append(f"the values of one row come from different row selections {sorted(map(str, sels))}")
+        if not mask_filters or not all(pol for _, pol in mask_filters):
+            problems.append("rows are not restricted to those whose observation_mask entry is set")
+        extra = [(fl, pol) for fl, pol in filters if (fl, pol) not in mask_filters]
+        if extra:
+            problems.append(f"rows are additionally filtered by {[repr(fl) for fl, _ in extra]}")
         ctx.check("R4", f"{f.site()}::ingestion", not problems,
-                  f"one _update per row; y/cl/dd1/dd2 from observations/sample_ids/treatment_ids[:,0]/[:,1] under selector {sorted(map(str, sels))}",
+                  f"one _update per observed row; y/cl/dd1/dd2 from observations/sample_ids/treatment_ids[:,0]/[:,1] under row selection {sorted(map(str, sels))}",
                   "; ".join(problems))
 
 
@@ -325,26 +289,13 @@ def r5(ctx):
 
 def r6(ctx):
     f = ctx.fn("models.sparse_combo.SparseDrugCombo._add_observations")
-    data = [p for p in f.params if p != "self"][0]
-    env = single_defs(f.node)
-    loops = [n for n in walk_own(f.node) if isinstance(n, ast.For) and isinstance(n.iter, ast.Call) and call_name(n.iter) == "zip"]
-    ctx.need(len(loops) == 1, f"{f.site()}: ingestion loop not found")
-    y = inline(loops[0].iter.args[0], env)
-    N = Norm(strict=False)
-
-    def strip_astype(e):
-        class S(ast.NodeTransformer):
-            def visit_Call(self, n):
-                self.generic_visit(n)
-                if isinstance(n.func, ast.Attribute) and n.func.attr == "astype":
-                    return n.func.value
-                return n
-        import copy
-        return S().visit(copy.deepcopy(e))
-    got = N.key(strip_astype(y))
-    want = N.key(parse_expr(f"logit(np.clip({data}.observations, a_min=0.01, a_max=0.99))"))
-    ctx.check("R6", f"{f.site()}::transform", got == want, "target = logit(clip(obs, 0.01, 0.99))",
-              f"training target is `{U(y)}`, not logit(np.clip(observations, 0.01, 0.99))")
+    feed, pos, filters, loop, call = ingestion_feed(ctx, f)
+    ctx.need("y" in feed, f"{f.site()}: _update is not given y by keyword")
+    tr = [t.replace(" ", "") for t in feed["y"].transforms if not t.startswith("astype") and not t.startswith("np.asarray") and not t.startswith("np.array")]
+    ok = feed["y"].attr == "observations" and tr in (["np.clip(a_min=0.01,a_max=0.99)", "logit"], ["np.clip(0.01,0.99)", "logit"], ["clip(0.01,0.99)", "logit"], ["clip(a_min=0.01,a_max=0.99)", "logit"])
+    narrowing = [t for t in feed["y"].transforms if t.startswith("astype") and any(x in t for x in ("float16", "int"))]
+    ctx.check("R6", f"{f.site()}::transform", ok and not narrowing, "target = logit(clip(obs, 0.01, 0.99))",
+              f"training target is `{feed['y']!r}`, not logit(np.clip(observations, 0.01, 0.99))")
 
 
 # sites that classify rows by the number of control columns: (function, variable or 'return', required class)
@@ -353,49 +304,145 @@ ROW_CLASS_SITES = [
     ("synergy.calculate_synergy", "single_treatment_mask", "single", "treatment_ids"),
     ("retrospective.PairwisePlateGenerator._generate_plates", "combo_mask", "combo", "screen.treatment_ids"),
     ("data.filter_dataset_to_treatments_that_appear_in_at_least_one_combo", "treatment_selection_vector", "combo", "treatment_ids"),
-    ("models.sparse_combo_interaction.SparseDrugComboInteraction._add_observations", "combo_mask", "combo", "data.treatment_ids"),
+    ("models.sparse_combo_interaction.SparseDrugComboInteraction._add_observations", "<ingested rows>", "combo", "data.treatment_ids"),
 ]
 
 
 def control_count_class(e, ids, sentinel_names=("CONTROL_SENTINEL_VALUE", "-1")):
-    """normalise a row-class expression to ('count', op, k) where k in {'0','arity','arity-1', int}; None if unrecognised"""
-    t = U(e).replace(" ", "")
+    """normalise a row-class expression to ('count', op, k) with k in {'0', 'arity', 'arity-1', int} (count of control
+    columns per row) or ('noncontrol', op, k); None if unrecognised.  Structural: element mask (== / != sentinel, isin,
+    ~), per-row reduction (sum / count_nonzero / all / any over axis 1), comparison with 0 / 1 / arity / arity - 1."""
     i = ids.replace(" ", "")
-    for s in sentinel_names:
-        isc = [f"{i}=={s}", f"({i}=={s})", f"np.isin({i},[{s}])", f"(({i}=={s}).reshape({i}.shape))", f"({i}=={s}).reshape({i}.shape)"]
-        notc = [f"{i}!={s}", f"({i}!={s})"]
-        ar = [f"{i}.shape[1]", f"({i}.shape[1])"]
-        for c in isc:
-            for a in ar:
-                if t in (f"np.sum({c},axis=1)=={a}-1", f"np.sum({c},axis=1)==({a}-1)", f"{c}.sum(axis=1)=={a}-1", f"np.sum({c},axis=1)==({i}.shape[1]-1)"):
-                    return ("count", "==", "arity-1")
-                if t in (f"np.sum({c},axis=1)=={a}", f"{c}.sum(axis=1)=={a}", f"np.all({c},axis=1)"):
-                    return ("count", "==", "arity")
-            if t in (f"np.sum({c},axis=1)==0", f"{c}.sum(axis=1)==0", f"~np.any({c},axis=1)", f"~np.any(({c}),axis=1)", f"np.all(~({c}),axis=1)",
-                     f"np.all(~{c},axis=1)", f"~{c}.any(axis=1)", f"np.logical_not(np.any({c},axis=1))"):
-                return ("count", "==", "0")
-            if t in (f"np.any({c},axis=1)", f"{c}.any(axis=1)", f"np.sum({c},axis=1)>0", f"np.sum({c},axis=1)>=1"):
-                return ("count", ">=", "1")
-            if t in (f"np.sum({c},axis=1)==1",):
-                return ("count", "==", 1)
-        for c in notc:
-            if t in (f"np.all({c},axis=1)", f"{c}.all(axis=1)"):
-                return ("count", "==", "0")
-            if t in (f"np.sum({c},axis=1)==1",):
-                return ("noncontrol", "==", 1)
-            if t in (f"np.sum({c},axis=1)>1", f"np.sum({c},axis=1)>=2"):
-                return ("noncontrol", ">=", 2)
-    return None
+
+    def T(x):
+        return U(x).replace(" ", "")
+
+    def axis1(c, pos=1):
+        ax = kwargs(c).get("axis", c.args[pos] if len(c.args) > pos else None)
+        return ax is not None and T(ax) in ("1", "-1")
+
+    def mask(x):
+        """'ctl' | 'nonctl' | None for an element-wise mask over the id matrix"""
+        if isinstance(x, ast.Call) and isinstance(x.func, ast.Attribute) and x.func.attr in ("reshape", "astype", "copy") :
+            return mask(x.func.value)
+        if isinstance(x, ast.Call) and call_name(x) in ("np.asarray", "np.array") and x.args:
+            return mask(x.args[0])
+        if isinstance(x, ast.UnaryOp) and isinstance(x.op, ast.Invert):
+            m = mask(x.operand)
+            return {"ctl": "nonctl", "nonctl": "ctl"}.get(m)
+        if isinstance(x, ast.Call) and call_name(x) == "np.logical_not" and x.args:
+            m = mask(x.args[0])
+            return {"ctl": "nonctl", "nonctl": "ctl"}.get(m)
+        if isinstance(x, ast.Compare) and len(x.ops) == 1 and isinstance(x.ops[0], (ast.Eq, ast.NotEq)):
+            l, r = T(x.left), T(x.comparators[0])
+            if (l == i and r in sentinel_names) or (r == i and l in sentinel_names):
+                return "ctl" if isinstance(x.ops[0], ast.Eq) else "nonctl"
+        if isinstance(x, ast.Call) and call_name(x) in ("np.equal", "np.not_equal") and len(x.args) == 2:
+            l, r = T(x.args[0]), T(x.args[1])
+            if (l == i and r in sentinel_names) or (r == i and l in sentinel_names):
+                return "ctl" if call_name(x) == "np.equal" else "nonctl"
+        if isinstance(x, ast.Call) and call_name(x) == "np.isin" and len(x.args) >= 2 and T(x.args[0]) == i and T(x.args[1]) in [f"[{s_}]" for s_ in sentinel_names] + [f"({s_},)" for s_ in sentinel_names]:
+            inv = kwargs(x).get("invert")
+            return "nonctl" if inv is not None and T(inv) == "True" else "ctl"
+        return None
+
+    def count(x):
+        """'ctl' | 'nonctl' for a per-row count of mask elements"""
+        if isinstance(x, ast.Call) and call_name(x) in ("np.sum", "np.count_nonzero") and x.args and axis1(x):
+            return mask(x.args[0])
+        if isinstance(x, ast.Call) and isinstance(x.func, ast.Attribute) and x.func.attr == "sum" and axis1(x, 0):
+            return mask(x.func.value)
+        return None
+
+    def const(x):
+        t = T(x)
+        if t in ("0", "1", "2"):
+            return int(t)
+        ar = (f"{i}.shape[1]", f"{i}.shape[-1]", f"({i}.shape[1])")
+        if t in ar:
+            return "arity"
+        if t in [f"{a}-1" for a in ar] + [f"({a}-1)" for a in ar]:
+            return "arity-1"
+        return None
+
+    def rel(x):
+        """(kind, op, k)"""
+        if isinstance(x, ast.UnaryOp) and isinstance(x.op, ast.Invert) or (isinstance(x, ast.Call) and call_name(x) == "np.logical_not" and x.args):
+            inner = rel(x.operand if isinstance(x, ast.UnaryOp) else x.args[0])
+            if inner is None:
+                return None
+            kind, op, k = inner
+            flip = {"==": "!=", "!=": "==", ">=": "<", "<": ">=", ">": "<=", "<=": ">"}
+            return (kind, flip[op], k)
+        if isinstance(x, ast.Call) and (call_name(x) in ("np.all", "np.any") and x.args and axis1(x)):
+            m = mask(x.args[0])
+            if m is None:
+                return None
+            return (m, "==", "arity") if call_name(x) == "np.all" else (m, ">=", 1)
+        if isinstance(x, ast.Call) and isinstance(x.func, ast.Attribute) and x.func.attr in ("all", "any") and axis1(x, 0):
+            m = mask(x.func.value)
+            if m is None:
+                return None
+            return (m, "==", "arity") if x.func.attr == "all" else (m, ">=", 1)
+        if isinstance(x, ast.Compare) and len(x.ops) == 1:
+            ops = {ast.Eq: "==", ast.NotEq: "!=", ast.Gt: ">", ast.GtE: ">=", ast.Lt: "<", ast.LtE: "<="}
+            op = ops.get(type(x.ops[0]))
+            l, r = x.left, x.comparators[0]
+            if op is None:
+                return None
+            c, k = count(l), const(r)
+            if c is None or k is None:
+                c, k = count(r), const(l)
+                op = {"==": "==", "!=": "!=", ">": "<", "<": ">", ">=": "<=", "<=": ">="}[op]
+            if c is None or k is None:
+                return None
+            return (c, op, k)
+        return None
+    r = rel(e)
+    if r is None:
+        return None
+    kind, op, k = r
+    # canonical spellings
+    if op == ">" and k == 0:
+        op, k = ">=", 1
+    if op == ">" and k == 1:
+        op, k = ">=", 2
+    if op == "<" and k == 1:
+        op, k = "==", 0
+    if op == "!=" and k == 0:
+        op, k = ">=", 1
+    if kind == "nonctl":
+        if op == "==" and k == "arity":
+            return ("count", "==", "0")
+        if op == "==" and k == 0:
+            return ("count", "==", "arity")
+        if op == "<" and k == "arity":
+            return ("count", ">=", "1")
+        return ("noncontrol", op, k)
+    if k == 0:
+        k = "0"
+    if op == ">=" and k == 1:
+        k = "1"
+    return ("count", op, k)
 
 
 def r7(ctx, rule="R7", sites=ROW_CLASS_SITES):
     for q, var, role, ids in sites:
         f = ctx.fn(q)
-        ds = [n for n in walk_own(f.node) if isinstance(n, ast.Assign) and len(n.targets) == 1 and isinstance(n.targets[0], ast.Name) and n.targets[0].id == var]
-        ctx.need(len(ds) == 1, f"{f.site()}: row-class variable `{var}` not found (or defined more than once)")
-        env = {k: v for k, v in single_defs(f.node).items() if k != var and U(v) != ids}
-        e = inline(ds[0].value, {k: v for k, v in env.items() if k in names_in(ds[0].value) and not isinstance(v, ast.Attribute)})
-        cls = control_count_class(e, ids)
+        if var == "<ingested rows>":
+            # the row selection under which the sampler is fed (whatever it is called)
+            feed, pos, filters, loop, call = ingestion_feed(ctx, f)
+            sel = feed["y"].selector if "y" in feed else None
+            ctx.need(sel is not None, f"{f.site()}: the rows fed to the sampler are not a selection of the screen's rows")
+            e = inline(parse_expr(sel), single_defs(f.node))
+            cls = control_count_class(e, ids)
+            var = f"rows fed to _update [{sel}]"
+        else:
+            ds = [n for n in walk_own(f.node) if isinstance(n, ast.Assign) and len(n.targets) == 1 and isinstance(n.targets[0], ast.Name) and n.targets[0].id == var]
+            ctx.need(len(ds) == 1, f"{f.site()}: row-class variable `{var}` not found (or defined more than once)")
+            env = {k: v for k, v in single_defs(f.node).items() if k != var and U(v) != ids}
+            e = inline(ds[0].value, {k: v for k, v in env.items() if k in names_in(ds[0].value) and not isinstance(v, ast.Attribute)})
+            cls = control_count_class(e, ids)
         if cls is None:
             raise AnalysisError(f"{f.site()}: row-class expression `{U(e)[:90]}` is not in a recognised control-count idiom")
         want = ("count", "==", "arity-1") if role == "single" else ("count", "==", "0")
